@@ -109,7 +109,7 @@ pub fn run(ctx: &mut Ctx) {
     ctx.check::<Case>(
         "world",
         "world programs (1..2 swarms, 1..2 probe fields, notify_handler_buffer_size 1..3) mixing numbered NotifyHandler::One/Any emissions with connection closes under generated task schedules (connection tasks are starved unless the program steps them); non-trivial = a handler received >=3 events and some connection closed; distinct by case hash",
-        ctx.n(2500, 60_000),
+        ctx.n(40_000, 1_200_000),
         &|| life::case_strategy(2, 1..=2, 0, 60, Weights { dial: 2, connect: 8, resolve_ok: 3, resolve_err: 1, inbound: 1, close: 3, disconnect: 1, remote_close: 2, notify: 20, poll: 8, step: 6, settle: 2 }),
         &check,
     );
